@@ -306,7 +306,17 @@ def check_forwarder_loop(ob, repo: Repo) -> None:
         if r.raised:
             neof += 1
             if end in heads and path[-1][1] != "" and any(h == end for h in heads) and _same_loop(cfg, r.nid, end):
-                ob.violation(fsp, r.node, "the forwarding loop does not end exactly on EOF of the sub", construct="loop continues after EOF")
+                # back at the loop head: the loop ends there only if its condition is now false (an at-EOF flag)
+                from ..terms import tv as _tvl
+                hd = cfg.nodes[end]
+                again = True
+                if isinstance(hd.owner, ast.While) and hd.ast is not None:
+                    try:
+                        again = _tvl(ev.term(hd.ast, st.clone(), False, None), dict(st.cond)) is not False
+                    except Exception:
+                        again = True
+                if again:
+                    ob.violation(fsp, r.node, "the forwarding loop does not end exactly on EOF of the sub", construct="loop continues after EOF")
             if outs:
                 ob.violation(fsp, outs[0].node, "the forwarder emits a frame after EOF of the sub")
             continue
